@@ -919,6 +919,27 @@ func runC18(c *Ctx) error {
 		}
 	}
 
+	// ---- finding F2 (belongs to property C04, recorded here as a note only):
+	// both labels of every output wire travel in Round3Payload.OutputHints
+	{
+		var a, b [32]byte
+		copy(a[:], c.rng.Fork().Bytes(32))
+		enc3, R, _, err := sha2pcTranscript(elliptic.P256(), a, b, c.Seed)
+		if err == nil {
+			if p, derr := sha2pc.DecodeRound3(enc3); derr == nil {
+				n := 0
+				for _, w := range p.OutputHints {
+					x := w.L0
+					x.Xor(w.L1)
+					if x.Equal(R) {
+						n++
+					}
+				}
+				c.Note("F2 (C04): decoded Round3 OutputHints: L0 xor L1 == garbler's R on %d of %d output wires", n, len(p.OutputHints))
+			}
+		}
+	}
+
 	// ---- (a) protocol runs, (b) decode cases, (c) mutations
 	plans := []c18Plan{
 		{Wire: true}, {G1: 1}, {G2: 1}, {E2: 1}, {E3: 1}, {G2: 1, E2: 1}, {G1: 1, E3: 1},
@@ -957,6 +978,9 @@ func runC18(c *Ctx) error {
 			// documented sizes
 			sizes := map[int]int{c18R1: 16 + 2*cv.bl, c18R2: 48 + 256*cv.bl, c18R3: 707146,
 				c18GS: 18 + 5*cv.bl, c18ES: 50 + 258*cv.bl}
+			if cv.bl == 66 {
+				sizes[c18ES]++ // inner chunk of 17066 bytes: 3-byte uvarint
+			}
 			for k, want := range sizes {
 				if len(base.enc[k]) != want {
 					rep.What = fmt.Sprintf("%s encoding has %d bytes, documented %d", c18KindName[k], len(base.enc[k]), want)
@@ -984,7 +1008,7 @@ func runC18(c *Ctx) error {
 			if fullR3 < c.N(2, 8) && class >= 2 && (c.Thorough() || ci < 2) {
 				fullR3++
 				c18EmitDecode(c, c18R3, cv, c18Mut{name: "pristine", segs: c18Auto(base.enc[c18R3])}, true)
-				if fullR3 > 1 && !c.Thorough() {
+				if !c.Thorough() {
 					runs = append(runs, base)
 					continue
 				}
@@ -1027,7 +1051,7 @@ func runC18(c *Ctx) error {
 			}
 		}
 		if ci == 0 || c.Thorough() {
-			for _, m := range c18Round3Mutations(c.rng.Fork(), base.r3.SessionID^1, c.N(3, 60)) {
+			for _, m := range c18Round3Mutations(c.rng.Fork(), base.r3.SessionID^1, c.N(1, 60)) {
 				d := c18EmitDecode(c, c18R3, cv, m, false)
 				if m.name == "flip" && d.class == clsOk {
 					c18Continue(c, c18R3, cv, m, d, base)
